@@ -1,1 +1,114 @@
-def hello := "world"
+/-
+  HSModel.Basic — strings as `List Char`, finite maps as association lists.
+  No imports outside core: every model file must stay Mathlib-free so that the
+  driver can be run with plain `lean --run`.
+-/
+namespace HS
+
+/-- Strings of the model. `List Char` keeps proofs inside core `List` lemmas. -/
+abbrev Str := List Char
+
+/-- Content token: the model never looks inside a byte content; the harness maps
+    tokens to actual bytes and supplies digests/sizes through the `Oracle`. -/
+abbrev Tok := Nat
+
+/-- Finite map as association list; `get` returns the first binding. -/
+structure FMap (K : Type) (V : Type) where
+  entries : List (K × V)
+  deriving Repr
+
+namespace FMap
+variable {K V : Type} [DecidableEq K]
+
+def empty : FMap K V := ⟨[]⟩
+
+def getL : List (K × V) → K → Option V
+  | [], _ => none
+  | (k', v) :: r, k => if k' = k then some v else getL r k
+
+def get (m : FMap K V) (k : K) : Option V := getL m.entries k
+
+def delL : List (K × V) → K → List (K × V)
+  | [], _ => []
+  | (k', v) :: r, k => if k' = k then delL r k else (k', v) :: delL r k
+
+def del (m : FMap K V) (k : K) : FMap K V := ⟨delL m.entries k⟩
+
+def set (m : FMap K V) (k : K) (v : V) : FMap K V := ⟨(k, v) :: delL m.entries k⟩
+
+def contains (m : FMap K V) (k : K) : Bool := (m.get k).isSome
+
+def keys (m : FMap K V) : List K := m.entries.map (·.1)
+
+theorem getL_delL_self (l : List (K × V)) (k : K) : getL (delL l k) k = none := by
+  induction l with
+  | nil => rfl
+  | cons a r ih =>
+    obtain ⟨k', v⟩ := a
+    by_cases h : k' = k
+    · simp [delL, h, ih]
+    · simp [delL, getL, h, ih]
+
+theorem getL_delL_ne (l : List (K × V)) (k j : K) (h : k ≠ j) :
+    getL (delL l k) j = getL l j := by
+  induction l with
+  | nil => rfl
+  | cons a r ih =>
+    obtain ⟨k', v⟩ := a
+    by_cases h1 : k' = k
+    · subst h1
+      simp [delL, getL, h, ih]
+    · by_cases h2 : k' = j
+      · subst h2
+        simp [delL, getL, h1]
+      · simp [delL, getL, h1, h2, ih]
+
+@[simp] theorem get_empty (k : K) : (empty : FMap K V).get k = none := rfl
+
+theorem get_set (m : FMap K V) (k j : K) (v : V) :
+    (m.set k v).get j = if k = j then some v else m.get j := by
+  unfold set get
+  by_cases h : k = j
+  · simp [getL, h]
+  · simp [getL, h, getL_delL_ne _ _ _ h]
+
+theorem get_del (m : FMap K V) (k j : K) :
+    (m.del k).get j = if k = j then none else m.get j := by
+  unfold del get
+  by_cases h : k = j
+  · subst h; simp [getL_delL_self]
+  · simp [h, getL_delL_ne _ _ _ h]
+
+@[simp] theorem get_set_self (m : FMap K V) (k : K) (v : V) : (m.set k v).get k = some v := by
+  simp [get_set]
+
+@[simp] theorem get_del_self (m : FMap K V) (k : K) : (m.del k).get k = none := by
+  simp [get_del]
+
+theorem get_set_ne (m : FMap K V) {k j : K} (v : V) (h : k ≠ j) :
+    (m.set k v).get j = m.get j := by simp [get_set, h]
+
+theorem get_del_ne (m : FMap K V) {k j : K} (h : k ≠ j) :
+    (m.del k).get j = m.get j := by simp [get_del, h]
+
+theorem contains_iff (m : FMap K V) (k : K) : m.contains k = true ↔ ∃ v, m.get k = some v := by
+  unfold contains
+  cases m.get k <;> simp
+
+/-- Extensional equality of maps (what an observer of the directory sees). -/
+def Equiv (m₁ m₂ : FMap K V) : Prop := ∀ k, m₁.get k = m₂.get k
+
+end FMap
+
+/-- No two distinct strings of `U` collide under `h`. A hypothesis of theorems,
+    never an axiom. -/
+def NoColl (h : Str → Str) (U : List Str) : Prop :=
+  ∀ a, a ∈ U → ∀ b, b ∈ U → h a = h b → a = b
+
+/-- `h` is injective on all strings (used only in satisfiability examples). -/
+def Inj (h : Str → Str) : Prop := ∀ a b, h a = h b → a = b
+
+theorem NoColl_of_Inj {h : Str → Str} (hi : Inj h) (U : List Str) : NoColl h U :=
+  fun a _ b _ e => hi a b e
+
+end HS
